@@ -153,6 +153,9 @@ type LibFunc struct {
 	// is a parameter of the segment and its arguments are not translated
 	Discard bool
 	Oracle  bool
+	// segfail.go: MayFail: the function may end in a no-return call: its Coq denotation returns
+	// res (exitm T); only as a whole statement inside a Segment
+	MayFail bool
 }
 
 // Field maps one struct field to the Coq projection.
@@ -324,6 +327,8 @@ func Translate(fset *token.FileSet, files []*ast.File, pkgPath string, cfg *Conf
 	t.cfg = cfg
 	curNoReturn = func(n ast.Node) bool { return t.noReturnCall(n) != "" }
 	defer func() { curNoReturn = nil }()
+	curMayFail = func(n ast.Node) bool { return t.mayFailCall(n) != nil } // segfail.go
+	defer func() { curMayFail = nil }()
 	defer func() {
 		if r := recover(); r != nil {
 			if u, ok := r.(*Unsupported); ok {
@@ -1334,6 +1339,13 @@ func hasJump(nodes ...ast.Node) bool {
 				found = true
 			case *ast.ExprStmt:
 				if isNoReturnStmt(n) { // methods.go
+					found = true
+				}
+				if isMayFailStmt(n) { // segfail.go
+					found = true
+				}
+			case *ast.AssignStmt:
+				if isMayFailStmt(n) { // segfail.go
 					found = true
 				}
 			}
